@@ -616,5 +616,76 @@ def rule_setup_is_the_clients(ctx):
 
 
 
+
+def rule_completing_element_is_flagged(ctx):
+    """(shared C01.f)  What a handler does on each received frame is the protocol's reaction; in particular a PAYLOAD
+    with NEXT and COMPLETE reaches the subscriber as one on_next(payload, is_complete=True): the library's own
+    subscribers decide from that flag whether to ask for more, and without it they emit REQUEST_N / CANCEL on a stream
+    whose COMPLETE has been received (rules/reactions.py)."""
+    from .c01 import rule_g as c01f
+    c01f(ctx)
+
+
+
+
+def rule_ended_stream_is_silent(ctx):
+    """C08.l  After the responder's COMPLETE or ERROR has been received, the requester of a request-stream writes
+    nothing further on that stream - whatever the application does with the subscription it still holds.  Calling
+    request(n) in every on_next and cancel() when done are ordinary reactive-streams usage (on a terminated
+    subscription they are no-ops), and the last element is delivered *inside* frame_received, before the stream is
+    released.  Typestate by re-entry: from the state each terminal frame entry leaves, request() and cancel() queue no
+    frame; and on the paths of that entry the state change precedes the terminal signal, so a request() made from
+    inside on_next(…, is_complete=True) / on_complete / on_error already sees it."""
+    from .c07 import TERMINAL
+    rep = ctx.report
+    m = model(ctx)
+    n = 0
+    for h in m.handlers:
+        if m.role(h) != ('stream', 'requester'):
+            continue
+        pre0 = init_bools(ctx, m, h)
+        entries = m.entries(h)
+        api = [e for e in entries if e.kind == 'method' and e.func.node.name in ('request', 'cancel')]
+        for en in entries:
+            if en.kind != 'frame':
+                continue
+            for p in m.run(en, pre0):
+                sigs = [(k, e) for k, e in m.signals(p) if k in TERMINAL]
+                if p.outcome != 'return' or not sigs:
+                    continue
+                n += 1
+                post = dict(pre0)
+                post.update(m.post_state(p))
+                changed = [k for k in post if post[k] != pre0.get(k)]
+                c = '%s / request() and cancel() after it write nothing' % en.name
+                late = None
+                for a in api:
+                    for p2 in m.run(a, post):
+                        out = m.emitted(p2)
+                        if out and late is None:
+                            late = (a, out[0][0])
+                if late is not None:
+                    rep.bad('C08.l', c, late[0].func,
+                            'in the state the terminal frame leaves (%s) %s() still queues a %s: a subscriber that asks '
+                            'for more in on_next, or cancels when it is done, makes the requester write on a stream '
+                            'whose COMPLETE / ERROR it has received' % (
+                                '{' + ', '.join('%s=%s' % kv for kv in sorted(post.items())) + '}',
+                                late[0].func.node.name, late[1]))
+                    continue
+                first = min(e.seq for _, e in sigs)
+                stores = [e for e in p.events if e.kind == 'store' and e.data['target'][0] == 'attr' and
+                          e.data['target'][2] in changed]
+                if not stores or min(e.seq for e in stores) > first:
+                    rep.bad('C08.l', c, en.func,
+                            'the requester notes the end of the stream (%s) only after it has told the subscriber '
+                            '(line %s): a request() made from inside that call-back is still written' % (
+                                ', '.join(changed) or 'no state', sigs[0][1].line))
+                    continue
+                rep.ok('C08.l', c, en.func, 'state %s is set before the subscriber is told; request()/cancel() '
+                                            'from it queue nothing' % ', '.join(changed))
+    rep.require('C08.l', 'terminal frame paths of the stream requester', n, 3)
+
+
+
 RULES = [('C08.a', rule_a), ('C08.b', rule_b), ('C08.c', rule_c), ('C08.d', rule_d), ('C08.e', rule_e),
-         ('C08.f', rule_f), ('C08.g', rule_g), ('C05.a', rule_order), ('C13.a+C16.b', rule_h), ('C09.a+C20.d', rule_i), ('C08.i', rule_j), ('C07.e', rule_genpub), ('C01.a', rule_dispatch_by_own_id), ('C01.h', rule_adapter_delegations), ('C08.j', rule_channel_complete_flag), ('C11.c', rule_dead_handlers_silenced), ('C08.k', rule_setup_is_the_clients)]
+         ('C08.f', rule_f), ('C08.g', rule_g), ('C05.a', rule_order), ('C13.a+C16.b', rule_h), ('C09.a+C20.d', rule_i), ('C08.i', rule_j), ('C07.e', rule_genpub), ('C01.a', rule_dispatch_by_own_id), ('C01.h', rule_adapter_delegations), ('C08.j', rule_channel_complete_flag), ('C11.c', rule_dead_handlers_silenced), ('C08.k', rule_setup_is_the_clients), ('C01.f', rule_completing_element_is_flagged), ('C08.l', rule_ended_stream_is_silent)]
